@@ -4,9 +4,9 @@ from . import common as C
 from . import numgen
 
 MANIFEST = dict(
-   technique="Lean 4 proof (soundness of the transcribed ToInt64/ToInteger[T]/ToFloat64/ToFloat[T]/ToBool/ToBigInt/To[T] and of the coercing-schema pipeline over all of Int and all dyadic floats) + translator (go/ast over pkg/coerce, coerce, types -> Gen/CoerceDispatch.lean, regenerated on every run; every type switch, guard, range constant and routing of the model is proved equal to the interpreted table for every source) + Lean functions for strings.TrimSpace, strconv.ParseInt/ParseUint/FormatInt and big.Int.SetString with soundness, completeness and round-trip theorems (integer text is inside the model, not a parameter) + differential correspondence of that model against pkg/coerce, the gozod/coerce schemas and the real strconv/strings/math/big functions, judged by a math/big oracle",
-   text="Theorems c17_int64_sound / c17_integer_sound (all ten integer targets) / c17_bigint_sound prove that a successful coercion returns exactly the value the source denotes and lands in the target's range; c17_int64_err / c17_integer_err prove that NaN, infinite, fractional, out-of-range and negative-to-unsigned sources are errors; c17_int_to_f64_nearest / c17_int_to_f64_exact / c17_f32_no_inf / c17_float64_finite cover float targets (correctly rounded, exact below 2^53, a finite source never becomes Inf); c17_float32_sound / c17_string_sound / c17_bool_table the float32, string and bool targets; C17P.parseInt_sound / parseInt_complete / parseInt_formatInt (ParseInt(FormatInt n) = n for every int64) and C17T.c17_int64_text_sound / c17_integer_text_sound / c17_text_roundtrip_i64 make integer text sources assumption-free; c17_schema / c17_schema_exact_first / c17_schema_sound the schema pipeline, composed with the exactness of the check for integer (c17_schema_check_exact) and float (C17S.c17_schema_check_exact_float) schemas; BigInt schemas (C17S.c17_bigint_check_exact; the float64 comparison of the code before 4945548 is kept as legacy_bigint_check_witness). The model is tied to /repo by translation (C17D.*_table: ToInt64/ToFloat64/ToBool/ToString/ToBigInt/ToInteger/toFloat32 switches, floatToInt64 and checkIntegerTypeBounds constants, To[T] and schema routing, truthy words, case_types_known: a new source type or a re-routed clause is a failed obligation) and by running both on exhaustive 8-bit (thorough: 16-bit) sources and a boundary grid over every (source kind, target) pair, through every helper and through coercing schemas with a check.",
-   note="Trusted: Lean kernel; axioms propext/Classical.choice/Quot.sound only; the Go harness, its math/big oracle and the comparer; strconv.ParseFloat/FormatFloat and strings.ToLower enter the model as parameters whose results the harness ships with each case (their correctness is assumed, cross-checked against math/big on the generated cases only); strings.TrimSpace, strconv.ParseInt/ParseUint/FormatInt, big.Int.SetString are Lean functions (Model/ParseInt.lean) proved against an independent positional denotation and driven against the real functions on boundary-directed texts (P/F lines). amd64 semantics of int64(float). Primitives (int64(f), float32(f), big.Int.Float64) and five raw clauses are validated on generated cases, not for all inputs; the translator harness/numgen is trusted. ToFloat64 of a complex source returns the magnitude (open known finding complex-magnitude, witness theorem complex_magnitude_witness). Time and []byte sources and complex/time targets are outside the property and not modelled. Spurious failures (e.g. uint64 values above MaxInt64, +Inf into float32) are allowed by the statement and only counted.",
+   technique="Lean 4 proof (soundness of the transcribed ToInt64/ToInteger[T]/ToFloat64/ToFloat[T]/ToBool/ToBigInt/To[T] over all of Int and all dyadic floats; the coercing schema as the transcription of engine.parsePrimitiveValue over C01's Prim.parse and C16's check algorithms, for chains of checks) + translator (go/ast over pkg/coerce, coerce, types, internal/engine/parser.go -> Gen/CoerceDispatch.lean, regenerated on every run; every type switch, guard, range constant and routing of the model - including the coercion branch of parsePrimitiveValue and the Parse method of every primitive schema type - is proved equal to / pinned by the table) + Lean functions for strings.TrimSpace, strconv.ParseInt/ParseUint/FormatInt and big.Int.SetString with soundness, completeness and round-trip theorems + differential correspondence of that model against pkg/coerce, the gozod/coerce schemas AND the plain gozod schemas on the coerced value, and the real strconv/strings/math/big functions, judged by a math/big oracle",
+   text="Theorems c17_int64_sound / c17_integer_sound (all ten integer targets) / c17_bigint_sound prove that a successful coercion returns exactly the value the source denotes and lands in the target's range; c17_int64_err / c17_integer_err prove that NaN, infinite, fractional, out-of-range and negative-to-unsigned sources are errors; float targets: c17_int_to_f64_nearest / c17_int_to_f64_exact (integers), C17F.toFloat32_f64_value / toFloat64_big_value / toFloat32_big_value (float64 -> float32 and big integers -> float64/float32 are correctly rounded in ONE rounding against the independent NearestMag: multiple of the ulp, within half an ulp, ties to even, subnormals included), c17_f32_no_inf / c17_float64_finite (a finite source never becomes Inf), C17F.toFloatF64_eq (ToFloat[float64] = ToFloat64); c17_bool_table / c17_bool_sound, C17T.c17_float32_sound / c17_string_sound describe what the bool, float32 and string helpers return per source kind (these two restate the model's branches; the value statements are the ones above); C17P.* and C17T.* make integer text assumption-free (parseInt_sound / parseInt_complete / parseInt_formatInt; C17T.c17_int64_text_sound_ascii reads ASCII text without the model's trimSpace). Third sentence: C17S.c17_schema_eq - the transcription of parsePrimitiveValue with Coerce set answers, on an input of another type, exactly what the PLAIN schema (C01's Prim.parse with the same internals) answers on coerce.To[T](input), a failed coercion being the invalid-type error; c17_schema_exact_first / parseValue_plain (an input of the schema's type: the coercing schema is the plain schema); c17_schema_sound (success iff To[T] produced that value and EVERY check of the chain holds on it); holds_exact (each check - Gt/Gte/Lt/Lte/Min/Max with int64, float64 or *big.Int bound, MultipleOf/Step on integers and big integers, string length, prefix - evaluated by the code's algorithm equals its documented meaning: composition with C16's c16_cmp, multipleOfInts_exact, C16B.c16_big_cmp, c16_big_multiple); c17_schema_int_sound end to end. These are unfolding theorems about two transcriptions; what ties them to the code is the run: driver_c17 computes parseValue AND plainOnCoerced for every S line and the harness observes the real coercing schema AND the real plain schema on coerce.To[T](input), with chains of up to four checks (bound, MultipleOf/Step, prefix, a user refinement); plus the translated tables (C17D.parsePrimitiveValue_coerce_table: under internals.Coerce the helper is coerce.To[T] on the unchanged input and the coerced value goes to the same validateWithChecks call as an input of type T; parsePrimitiveValue_order; schema_parse_routes: Bool, String, BigInt, integer and float schemas all enter engine.ParsePrimitive with their own base type). The coerce helpers are tied by translation (C17D.*_table) and by exhaustive 8-bit (thorough: 16-bit) sources and a boundary grid over every (source kind, target) pair.",
+   note="Trusted: Lean kernel; axioms propext/Classical.choice/Quot.sound only; the Go harness, its math/big oracle and the comparer; strconv.ParseFloat/FormatFloat and strings.ToLower enter the model as parameters whose results the harness ships with each case (cross-checked against math/big on the generated cases only); strings.TrimSpace, strconv.ParseInt/ParseUint/FormatInt, big.Int.SetString are Lean functions proved against an independent positional denotation and driven against the real functions (P/F lines). amd64 semantics of int64(float). Primitives (int64(f), float32(f), big.Int.Float64) being roundMag/cvtI64 is validated on generated cases, not proved. float MultipleOf on a coerced float has no exact specification (C16's epsilon rule: the code's rule is the oracle there; counted in the evidence). The user refinement of the chains is a fixed menu (even / whole / true / non-empty) whose Lean reading is its own specification. validatePointer / handleNilPointer / the modifiers around parsePrimitiveValue are C01/C03's (Prim.checked, Prim.nilPath imported); multi-level pointers and nil inputs to coercing schemas are not generated. ToFloat64 of a complex source returns the magnitude (open known finding complex-magnitude, witness theorem complex_magnitude_witness). Time and []byte sources and complex/time targets are outside the property. Spurious failures (e.g. uint64 values above MaxInt64, +Inf into float32) are allowed by the statement and only counted.",
    design="DESIGN.md §5 C17, §3.6; notes/C17.md")
 
 MODULES = ["Gozod.Proofs.C17", "Gozod.Proofs.C17Dispatch", "Gozod.Proofs.C17Parse", "Gozod.Proofs.C17Text", "Gozod.Proofs.C17Schema", "Gozod.Proofs.C17Float"]
@@ -39,6 +39,8 @@ THEOREMS = [
     "Gozod.C17T.c17_integer_text_sound", "Gozod.C17T.c17_string_int_sound", "Gozod.C17T.c17_text_roundtrip_i64",
     "Gozod.C17T.c17_text_roundtrip_big", "Gozod.C17T.c17_bigint_text_sound", "Gozod.C17T.sign_after_prefix_witness",
     "Gozod.C17T.c17_float32_sound", "Gozod.C17T.c17_string_sound",
+    # round 4c: integer text read on the text itself (ASCII blanks / printable core), no trimSpace in the statement
+    "Gozod.C17T.trimSpace_ascii_frame", "Gozod.C17T.c17_int64_text_sound_ascii",
     # third sentence (round 4c): the coercing schema = parsePrimitiveValue's transcription over C01's Prim.parse and C16's checks;
     # driver_c17 runs parseValue AND plainOnCoerced / parsePlain on every S line
     "Gozod.C17S.c17_schema_eq", "Gozod.C17S.plainOnCoerced_ok", "Gozod.C17S.plainOnCoerced_err", "Gozod.C17S.c17_schema_exact_first",
@@ -262,7 +264,8 @@ def run(res):
         "+-Inf, NaN, +-0, seeded random patterns; strings: signs, blanks, unicode space, leading zeros, fractions, exponents, hex, underscores, inf/nan words, "
         "limits +-1 of every integer type as text, float text at the float32/float64 overflow and underflow thresholds, bool words; big.Int up to 2^2000; nil and non-numeric values); "
         "targets int8..uint64, float32, float64, bool, string, *big.Int; each through every helper serving the target and To[T]; 60% of grid cases also through a "
-        "gozod/coerce schema (value/pointer constructor, 15% pointer inputs) with a bound next to the expected value. distinct = distinct op lines.")
+        "gozod/coerce schema AND the plain gozod schema on coerce.To[T](input) (value/pointer constructor, 15% pointer inputs) with a chain of up to four checks: a bound next to the expected value, "
+        "MultipleOf/Step (integer, float, BigInt targets; divisors 0, +-1, 2, 3, 7, 10, 2^53, MinInt64, the value and its neighbours), a prefix (strings), a user refinement. distinct = distinct op lines.")
     res.coverage["strict_reading_rounded_successes"] = strict
     res.coverage["bool_from_number_other_than_0_1"] = boolwide
     res.coverage["blank_string_read_as_zero"] = blank
